@@ -2015,8 +2015,9 @@ def canon(t):
                     return _mk_poly({(('call', G('sum'), (('map', ('lam', m[1][1], inner), m[2]),), ()),): c})
         return t
     if k in ('and', 'or'):
-        if len(t[1]) >= 2 and all(p_[0] == 'ge0' for p_ in t[1]):
-            # integer comparisons are total: their order inside a conjunction / disjunction does not matter
+        if len(t[1]) >= 2 and all(p_[0] == 'ge0' and _total_int(p_[1]) for p_ in t[1]):
+            # comparisons of names, attributes of self and lengths are total: their order inside a conjunction / disjunction
+            # does not matter (a subscript or another call inside a comparison can raise, so such a test stays where it is)
             return (k, tuple(sorted(t[1], key=_key)))
         return t
     if k == 'if' and t[1][0] != 'const':
@@ -2235,6 +2236,22 @@ def _assume(t, cond, value):
                (equals and y[0] == 'cmp' and y[1] in ('Eq', 'NotEq')) for y in walk(t)):
         return t
     return replace(t, f)
+
+
+def _total_int(p):
+    """every factor of the polynomial is a name, a constant, an attribute chain or a len(...) of such / of a sequence term"""
+    def ok(x):
+        if x[0] in ('var', 'bv', 'const', 'glob'):
+            return True
+        if x[0] == 'attr':
+            return ok(x[1])
+        if _is_len(x):
+            y = _strip_seq(x[2][0])
+            return ok(y) or y[0] in ('filter', 'map', 'concat', 'list', 'tuple') and not any(z[0] == 'sub' for z in walk(y))
+        return False
+    if p[0] == 'poly':
+        return all(ok(f_) for c_, mono in p[1] for f_ in mono)
+    return ok(p)
 
 
 def _strip_seq(x):
